@@ -73,6 +73,12 @@ Theorem C16_failure_leaves_model : forall (M : list eqn) (code : nat) (M' : list
 Proof. exact sequentialize_failure_untouched_now. Qed.
 Print Assumptions C16_failure_leaves_model.
 
+(* 6b. Sequential.is_sequential is True exactly when the current order of the equations is causal *)
+Theorem C16_is_sequential_iff : forall M : list eqn,
+  distinct_lhs M -> (model_is_sequential M = true <-> causal_order M (seq 0 (length M))).
+Proof. exact is_sequential_iff. Qed.
+Print Assumptions C16_is_sequential_iff.
+
 (* 7. statements 3, 4 and 6 do not depend on whether sequentialize_strictly raises its own error (the current
       source constructs the IrisPieError without raising it; BlazerGen.strict_failure_raises = false): they are
       proved for both behaviours *)
